@@ -67,6 +67,9 @@ fn run_one(ctx0: &Context, sys0: &TransitionSystem, cfg: &RunCfg, sid: usize, ri
     let transcript = format!("{work}/transcript_{}.ndjson", std::process::id());
     let _ = std::fs::remove_file(&transcript);
     set_env("PV_TRANSCRIPT", &transcript);
+    let count_file = format!("{work}/count_{}.txt", std::process::id());
+    let _ = std::fs::remove_file(&count_file);
+    set_env("PV_COUNT_FILE", &count_file);
     match cfg.model_seed { Some(s) => set_env("PV_MODEL_SEED", &s.to_string()), None => del_env("PV_MODEL_SEED") }
     set_env("PV_CORE_MODE", &cfg.core_mode);
     set_env("PV_FAULT_AT", &cfg.fault_at.to_string());
@@ -109,6 +112,7 @@ fn run_one(ctx0: &Context, sys0: &TransitionSystem, cfg: &RunCfg, sid: usize, ri
     } else { json!({"ok":1,"cmds":[],"err":""}) };
     let _ = std::fs::remove_file(&replay_path);
     let _ = std::fs::remove_file(&transcript);
+    let _ = std::fs::remove_file(&count_file);
     json!({"ev":"Run","id":rid,"sid":sid,"cfg":cfg.json(),"outcome":{"kind":kind,"msg":msg},"witness":wit,"sys":if cfg.simplified || !evj.is_empty() { sysj } else { json!({}) },
            "has_sys": if cfg.simplified || !evj.is_empty() {1} else {0}, "events":evj,"nresp":nresp,"script":script,"ms":ms,"state0":state0(&ctx, &sys)})
 }
@@ -198,13 +202,13 @@ pub fn run(args: &[String]) {
     let want_script = flag(args, "--scripts").is_some();
     // deterministic enumeration of (system, config) work items
     let mut item = 0u64;
+    if kind == "faults" { return fault_worker(args, &out_path, &prog, start, &work, &mut f); }
     for s in 0..nsys {
         if s % nshards != shard { continue; }
         let mut rng = seed_rng(seed.wrapping_mul(1000003).wrapping_add(s));
         let mut ctx = Context::default();
         let sys = gen_mc_sys(&mut ctx, &mut rng, s, kind == "pdr");
-        let cfgs = if kind == "faults" { vec![] } else { configs(&kind, &mut rng, kmax, thorough) };
-        let first = item;
+        let cfgs = configs(&kind, &mut rng, kmax, thorough);
         if item + (cfgs.len() as u64) < start { item += cfgs.len() as u64 + 1; continue; }
         if item >= start {
             std::fs::write(&prog, format!("{item}")).unwrap();
@@ -220,9 +224,64 @@ pub fn run(args: &[String]) {
             }
             item += 1;
         }
-        let _ = first;
     }
     std::fs::write(&prog, format!("{item}")).unwrap();
+    std::fs::write(format!("{out_path}.summary"), json!({"items": item}).to_string()).unwrap();
+}
+
+/// C15: for each base run, every response-bearing position x every fault kind
+fn fault_worker(args: &[String], out_path: &str, prog: &str, start: u64, work: &str, f: &mut std::fs::File) {
+    let seed = env_seed();
+    let nsys = flag_u(args, "--systems", 4);
+    let shard = flag_u(args, "--shard", 0);
+    let nshards = flag_u(args, "--shards", 1);
+    let thorough = flag(args, "--thorough").is_some();
+    let max_pos = flag_u(args, "--max-pos", 40);
+    let lens: Vec<u64> = if thorough { (0..=40).collect() } else { vec![0, 1, 3, 6, 7, 8, 9, 20] };
+    let mut faults: Vec<(String, u64)> = lens.iter().map(|l| ("error".to_string(), *l)).collect();
+    for k in ["unknown", "empty", "garbage", "truncate", "exit", "exit_status"] { faults.push((k.to_string(), 12)); }
+    let base = RunCfg { engine: "bmc".into(), k: 3, profile: "z3".into(), individually: false, simplified: false, no_cores: false, model_seed: None, core_mode: "solver".into(), fault_at: 0, fault_kind: String::new(), fault_len: 0 };
+    let mut item = 0u64;
+    let mut b = 0u64;
+    for s in 0..nsys {
+        let mut rng = seed_rng(seed.wrapping_mul(1000003).wrapping_add(s));
+        let mut ctx = Context::default();
+        let sys = gen_mc_sys(&mut ctx, &mut rng, s, true);
+        for bc in [RunCfg { ..base.clone() }, RunCfg { profile: "yices2".into(), individually: true, ..base.clone() }, RunCfg { engine: "pdr".into(), ..base.clone() }, RunCfg { engine: "pdr".into(), profile: "yices2".into(), no_cores: true, ..base.clone() }] {
+            b += 1;
+            if b % nshards != shard { continue; }
+            // the fault-free conversation gives the number of response-bearing commands
+            let r0 = run_one(&ctx, &sys, &bc, s as usize, &format!("s{s}b{b}"), work, false);
+            let nresp = r0["nresp"].as_u64().unwrap().min(max_pos);
+            let n_items = 1 + nresp * faults.len() as u64;
+            if item + n_items <= start { item += n_items; continue; }
+            if item >= start {
+                std::fs::write(prog, format!("{item}")).unwrap();
+                let mut r = r0.clone(); r["ev"] = json!("Base");
+                writeln!(f, "{}", r).unwrap();
+            }
+            item += 1;
+            for pos in 1..=nresp {
+                for (fk, fl) in faults.iter() {
+                    if item >= start {
+                        std::fs::write(prog, format!("{item}")).unwrap();
+                        let cfg = RunCfg { fault_at: pos, fault_kind: fk.clone(), fault_len: *fl, ..bc.clone() };
+                        let mut r = run_one(&ctx, &sys, &cfg, s as usize, &format!("s{s}b{b}p{pos}{fk}{fl}"), work, false);
+                        r["ev"] = json!("Fault");
+                        let expected: String = (0..*fl).map(|i| "abcdefghij".chars().nth((i % 10) as usize).unwrap()).collect();
+                        let msg = r["outcome"]["msg"].as_str().unwrap_or("").to_string();
+                        r["carried"] = json!(if fk != "error" || msg.contains(&format!("\"{expected}\"")) || (msg.contains(&expected) && !expected.is_empty()) { 1 } else { 0 });
+                        r["expected_msg"] = json!(expected);
+                        r["base"] = json!(r0["outcome"]["kind"]);
+                        writeln!(f, "{}", r).unwrap();
+                        f.flush().unwrap();
+                    }
+                    item += 1;
+                }
+            }
+        }
+    }
+    std::fs::write(prog, format!("{item}")).unwrap();
     std::fs::write(format!("{out_path}.summary"), json!({"items": item}).to_string()).unwrap();
 }
 
@@ -274,7 +333,7 @@ fn sym_name(ctx: &Context, e: ExprRef) -> String {
 fn enc_record(ctx0: &Context, sys: &TransitionSystem, sid: u64, start: u64, k: u64, work: &str) -> J {
     let mut ctx = ctx0.clone();
     let replay_path = format!("{work}/enc_{}.smt2", std::process::id());
-    del_env("PV_TRANSCRIPT"); del_env("PV_MODEL_SEED"); set_env("PV_FAULT_AT", "0"); set_env("PV_CORE_MODE", "solver");
+    del_env("PV_TRANSCRIPT"); del_env("PV_MODEL_SEED"); del_env("PV_COUNT_FILE"); set_env("PV_FAULT_AT", "0"); set_env("PV_CORE_MODE", "solver");
     let res = guarded(|| -> Result<Vec<J>, String> {
         let rf = std::fs::File::create(&replay_path).ok();
         let mut smt_ctx = Z3.start(rf).map_err(|e| format!("{e}"))?;
